@@ -22,5 +22,5 @@ CONSTANTS
   ClientNodes = {"n1", "n2", "n3"}
   Cached0 = {}
 INVARIANT Inv
-PROPERTY CommitConsumes CacheOnlyVerified TasksOnlyGrow CleanupOnlyCandidates RemovalOnlyByDelete
+PROPERTY CommitConsumes CacheOnlyVerified TasksOnlyGrow CleanupOnlyCandidates RemovalOnlyByDelete ReplicateTruthful
 CHECK_DEADLOCK FALSE
